@@ -151,7 +151,7 @@ func (e *SNIExtension) Read(b []byte) (int, error) {
 	b[3] = byte(len(hostName) + 5)
 	b[4] = byte((len(hostName) + 3) >> 8)
 	b[5] = byte(len(hostName) + 3)
-	// b[6] Server Name Type: host_name (0)
+	b[6] = 0 // Server Name Type: host_name (0)
 	b[7] = byte(len(hostName) >> 8)
 	b[8] = byte(len(hostName))
 	copy(b[9:], []byte(hostName))
@@ -227,6 +227,7 @@ func (e *StatusRequestExtension) Read(b []byte) (int, error) {
 	b[3] = 5
 	b[4] = 1 // OCSP type
 	// Two zero valued uint16s for the two lengths.
+	clear(b[5:9])
 	return e.Len(), io.EOF
 }
 
@@ -500,6 +501,7 @@ func (e *StatusRequestV2Extension) Read(b []byte) (int, error) {
 	b[7] = 0
 	b[8] = 4
 	// Two zero valued uint16s for the two lengths.
+	clear(b[9:13])
 	return e.Len(), io.EOF
 }
 
@@ -854,6 +856,7 @@ func (e *SCTExtension) Read(b []byte) (int, error) {
 	b[0] = byte(extensionSCT >> 8)
 	b[1] = byte(extensionSCT)
 	// zero uint16 for the zero-length extension_data
+	b[2], b[3] = 0, 0
 	return e.Len(), io.EOF
 }
 
@@ -941,6 +944,7 @@ func (e *ExtendedMasterSecretExtension) Read(b []byte) (int, error) {
 	b[0] = byte(extensionExtendedMasterSecret >> 8)
 	b[1] = byte(extensionExtendedMasterSecret)
 	// The length is 0
+	b[2], b[3] = 0, 0
 	return e.Len(), io.EOF
 }
 
@@ -1081,6 +1085,7 @@ func (e *UtlsPaddingExtension) Read(b []byte) (int, error) {
 	b[1] = byte(utlsExtensionPadding)
 	b[2] = byte(e.PaddingLen >> 8)
 	b[3] = byte(e.PaddingLen)
+	clear(b[4:e.Len()]) // the padding itself: zero bytes
 	return e.Len(), io.EOF
 }
 
@@ -1610,6 +1615,7 @@ func (e *NPNExtension) Read(b []byte) (int, error) {
 	b[0] = byte(extensionNextProtoNeg >> 8)
 	b[1] = byte(extensionNextProtoNeg & 0xff)
 	// The length is always 0
+	b[2], b[3] = 0, 0
 	return e.Len(), io.EOF
 }
 
@@ -1729,6 +1735,7 @@ func (e *FakeChannelIDExtension) Read(b []byte) (int, error) {
 	b[0] = byte(extensionID >> 8)
 	b[1] = byte(extensionID & 0xff)
 	// The length is 0
+	b[2], b[3] = 0, 0
 	return e.Len(), io.EOF
 }
 
